@@ -23,6 +23,8 @@ type Bounds struct {
 	MaxLoop      int   // visits of one block in one frame
 	MaxPaths     int   // paths per harness (0 = unlimited)
 	QueryMs      int
+	MaxSymAlloc  int
+	WallS        int // wall-clock budget per harness (0 = none)
 }
 
 func defaultBounds() Bounds {
@@ -136,6 +138,8 @@ type World struct {
 	constCache map[*ssa.Const]Value
 	initDone   map[*ssa.Package]bool
 	inInit     bool
+	shard      int
+	nshards    int
 	tolerant   int // >0: executing best-effort package initialisation
 	rtErrT     types.Type
 	clock      Value // cell: *Term (int64 ns since epoch)
@@ -186,6 +190,15 @@ func (w *World) decideBool(c *Term, label string) bool {
 	}
 	if c == w.tt.F {
 		return false
+	}
+	// already decided on this path?
+	for i := len(w.pc) - 1; i >= 0 && i >= len(w.pc)-4000; i-- {
+		if w.pc[i] == c {
+			return true
+		}
+		if w.pc[i].op == OpBNot && w.pc[i].a[0] == c {
+			return false
+		}
 	}
 	if w.replaying() {
 		d := &w.decisions[w.dpos]
@@ -285,11 +298,19 @@ func (w *World) chooseN(n int, label string) int {
 		return d.chosen
 	}
 	w.noteDecision()
+	first := 0
+	if len(w.decisions) == 0 && w.nshards > 1 {
+		// top-level case split farmed out over shards
+		first = w.shard
+		if first >= n {
+			panic(pathEnd{"stop", "empty shard"})
+		}
+	}
 	w.sol.Push()
-	w.decisions = append(w.decisions, decision{n: n, chosen: 0, label: label})
+	w.decisions = append(w.decisions, decision{n: n, chosen: first, label: label})
 	w.dpos++
 	w.res.Decisions++
-	return 0
+	return first
 }
 
 // backtrack advances the decision vector to the next unexplored alternative.
@@ -299,8 +320,12 @@ func (w *World) backtrack() bool {
 		d := &w.decisions[i]
 		w.sol.PopTo(i)
 		if d.term == nil {
-			if d.chosen+1 < d.n {
-				d.chosen++
+			step := 1
+			if i == 0 && w.nshards > 1 {
+				step = w.nshards
+			}
+			if d.chosen+step < d.n {
+				d.chosen += step
 				w.sol.Push()
 				return true
 			}
@@ -585,7 +610,32 @@ func (w *World) Explore(h Harness, openFinds map[string]bool) *HarnessResult {
 	w.initPackages(fn.Pkg)
 	w.trailOn = true
 	w.decisions = nil
+	if os.Getenv("GOSYM_WATCH") != "" {
+		stop := make(chan struct{})
+		defer close(stop)
+		go func() {
+			for {
+				select {
+				case <-stop:
+					return
+				case <-time.After(5 * time.Second):
+					if c := w.cur; c != nil && c.top != nil {
+						fmt.Fprintf(os.Stderr, "WATCH path=%d steps=%d decisions=%d\n%s", w.pathNo, w.steps, len(w.decisions), indent(w.where(c.top)))
+					}
+				}
+			}
+		}()
+	}
+	lastReport := time.Now()
 	for {
+		if time.Since(lastReport) > 15*time.Second {
+			lastReport = time.Now()
+			fmt.Fprintf(os.Stderr, "  .. %s: %d paths, %d queries, depth %d, %v\n", h.Func, res.Paths, w.sol.stats.Queries, len(w.decisions), time.Since(t0).Round(time.Second))
+		}
+		if w.bounds.WallS > 0 && time.Since(t0) > time.Duration(w.bounds.WallS)*time.Second {
+			res.Unwind = append(res.Unwind, fmt.Sprintf("wall budget %ds exhausted after %d paths", w.bounds.WallS, res.Paths))
+			break
+		}
 		w.resetPath()
 		w.pathNo++
 		w.runPath(fn)
@@ -638,6 +688,9 @@ func (w *World) handlePathPanic(r interface{}, t *Thread) {
 	case goPanic:
 		// uncaught panic in the code under test
 		msg := w.panicString(p.v)
+		if w.replayingStrict() {
+			w.res.EngineErr = appendUniq(w.res.EngineErr, fmt.Sprintf("panic %q while re-executing a decision prefix (dpos=%d of %d): nondeterminism\n%s", msg, w.dpos, len(w.decisions), p.where))
+		}
 		if !w.replayingStrict() {
 			w.res.Obligations[w.harness+".nopanic"]++
 			w.recordFailure(w.tt.T, w.harness+".nopanic", "panic", msg, p.where)
@@ -678,7 +731,7 @@ func (w *World) panicString(v Value) string {
 		}
 		if i.t != nil {
 			// error values: try Error()
-			if m := w.prog.LookupMethod(i.t, nil, "Error"); m != nil {
+			if m := w.lookupMethod(i.t, nil, "Error"); m != nil {
 				var out string
 				func() {
 					defer func() {
